@@ -173,7 +173,7 @@ func genSusp3(t *rapid.T) SuspCase {
 	for i := 0; i < nw; i++ {
 		c.Other = append(c.Other, Op{K: []string{opPut, opRemove}[weighted(t, "wkind", []int{5, 1})], Key: rapid.IntRange(0, len(c.Keys)-1).Draw(t, "wkey"), VLen: 11 + i})
 	}
-	c.PointFlush = append([]string{"flush.stamped"}, suspFlushPoints...)[rapid.IntRange(0, len(suspFlushPoints)).Draw(t, "flpoint")]
+	c.PointFlush = append([]string{"flush.stamped", "commit.marked"}, suspFlushPoints...)[rapid.IntRange(0, len(suspFlushPoints)+1).Draw(t, "flpoint")]
 	c.GCLow = []int{0, 50, 100}[rapid.IntRange(0, 2).Draw(t, "gclow")]
 	return c
 }
